@@ -30,7 +30,7 @@ META = {
     "assumptions": [
         "'P before Q' / 'Q after P' mean P's digest is called before Q's (SectionPlugin.load docstring and the code agree on this)",
         "the constraint graph between installed plugins is acyclic (quantifier of the property)",
-        "digests do not raise",
+        "a digest that raises makes loading fail because of it: loading does not return normally, the error is the digest's own or carries it as cause/context, and it does not claim that the (present) section is missing (load_configuration does not catch what a digest raises; the property is silent about failing digests)",
     ],
     "shard_timeout": {"quick": 300, "thorough": 1500},
 }
@@ -75,10 +75,18 @@ def gen_case(rnd, spec):
         })
         if plugins[-1]["plain"]:
             plugins[-1]["required"] = False
+    if plugins and rnd.random() < 0.15:
+        # the same callable installed under a second section name (as `builtins:dict` may be): two plugins, one digest
+        twin = dict(rnd.choice(plugins))
+        twin["alias_of"], twin["section"] = twin["section"], rnd.choice([x for x in ("twin", "mirror", "again") if x not in names])
+        plugins.append(twin)
     rnd.shuffle(plugins)  # declaration (entry point file) order
     config = {}
     for p in plugins:
-        if rnd.random() < 0.7:
+        if p.get("alias_of") or any(q.get("alias_of") == p["section"] for q in plugins):
+            if rnd.random() < 0.85:
+                config[p["section"]] = {"which": p["section"]}  # tells the two calls of the shared digest apart
+        elif rnd.random() < 0.7:
             config[p["section"]] = rnd.choice([{"a": 1}, [1, 2, {"b": None}], "text", 0, None, {}, [], {"nested": {"deep": [1.5, True]}},
                                                # live objects inside the content (what a YAML tag builds): handed on as they are
                                                {"built": "<opaque>"}, ["<opaque>", {"guard": "<lock>"}]])
@@ -91,7 +99,12 @@ def gen_case(rnd, spec):
         config["logging"] = {"version": 1}
     items = list(config.items())
     rnd.shuffle(items)
-    return {"plugins": plugins, "config": dict(items), "unknown": unknown, "via_yaml": rnd.random() < 0.3}
+    raises = None
+    present = [p["section"] for p in plugins if p["section"] in config and not p.get("alias_of") and not any(q.get("alias_of") == p["section"] for q in plugins)]
+    if present and not unknown and rnd.random() < 0.1:
+        # one digest fails while it processes its section (a key it looks up is not there, a value is unusable)
+        raises = {"section": rnd.choice(present), "kind": rnd.choice(["KeyError", "KeyError", "LookupError", "ValueError", "TypeError"])}
+    return {"plugins": plugins, "config": dict(items), "unknown": unknown, "via_yaml": rnd.random() < 0.3, "raises": raises}
 
 
 class Opaque:
@@ -125,10 +138,16 @@ class Env:
 
         table = {}
         lines = ["[%s]" % GROUP]
+        attrs = {}
         for i, p in enumerate(plugins):
-            attr = "digest_%d" % i
+            if p.get("alias_of"):
+                continue
+            attr = attrs[p["section"]] = "digest_%d" % i
             table[attr] = p
             lines.append("%s = vsect:%s" % (p["section"], attr))
+        for p in plugins:
+            if p.get("alias_of"):
+                lines.append("%s = vsect:%s" % (p["section"], attrs[p["alias_of"]]))  # the very same callable
         with open(os.path.join(self.info, "entry_points.txt"), "w") as f:
             f.write("\n".join(lines) + "\n")
         vsect.install(table)
@@ -150,7 +169,10 @@ def execute(case, result):
 
     plugins = case["plugins"]
     vsect = ENV.install(plugins)
+    vsect.CURRENT["raises"] = case.get("raises")
     problems = []
+    if any(p.get("alias_of") for p in plugins):
+        result.count("plugin_sets_with_one_callable_under_two_section_names")
     try:
         loaded = load_section_plugins(GROUP)
     except Exception as err:
@@ -199,6 +221,8 @@ def execute(case, result):
         missing = [p["section"] for p in plugins if p["required"] and p["section"] not in config]
         if missing:
             expect_error = "missing"
+    if expect_error:
+        vsect.CURRENT["raises"] = None  # one fault at a time
     err = None
     try:
         if via_yaml:
@@ -212,9 +236,28 @@ def execute(case, result):
     except ConfigurationError as e:
         err = e
     except Exception as e:
-        return problems + [("loading raised %r instead of a configuration error" % (e,), None)]
+        if case.get("raises") and expect_error is None and vsect.CURRENT["raised"] is not None and e is vsect.CURRENT["raised"]:
+            err = e
+        else:
+            return problems + [("loading raised %r instead of a configuration error" % (e,), None)]
     log = list(vsect.CURRENT["log"])
     called = [s for s, _ in log]
+    if case.get("raises") and expect_error is None:
+        # a digest failed while it processed a section that is there: loading fails because of that, and says so
+        result.count("configs_with_a_failing_digest")
+        boom = vsect.CURRENT["raised"]
+        if boom is None:
+            problems.append(("the plugin of the present section %r was never called" % case["raises"]["section"], None))
+        elif err is None:
+            problems.append(("the digest of section %r raised %r, but loading returned normally (%r): the failure was swallowed"
+                             % (case["raises"]["section"], boom, content), None))
+        elif err is not boom and err.__cause__ is not boom and err.__context__ is not boom:
+            problems.append(("the digest of section %r raised %r, loading failed with the unrelated %r" % (case["raises"]["section"], boom, err), None))
+        elif "missing" in str(err).lower() and err is not boom:
+            problems.append(("section %r is present and its digest raised %r, loading reports %r" % (case["raises"]["section"], boom, err), None))
+        if len(called) != len(set(called)):
+            problems.append(("plugins called more than once: %r" % called, None))
+        return problems
     if expect_error == "unknown":
         result.count("configs_unknown_section")
         if err is None:
@@ -277,6 +320,7 @@ def run_shard(spec):
 
 def finish(total, tier):
     for name in ("constraints_between_installed", "constraints_naming_absent", "configs_unknown_section", "configs_missing_required",
-                 "configs_valid", "digest_calls", "results_kept", "results_none_dropped", "configs_via_yaml_file", "configs_with_live_objects_in_the_content"):
+                 "configs_valid", "digest_calls", "results_kept", "results_none_dropped", "configs_via_yaml_file", "configs_with_live_objects_in_the_content",
+                 "plugin_sets_with_one_callable_under_two_section_names", "configs_with_a_failing_digest"):
         if not total.counters.get(name) and not total.violations:
             total.inconc("monitor never observed: " + name)
